@@ -18,6 +18,11 @@ DhVals == MapSeq(SetToSeq({<<a, b, c>> : a \in 1..4, b \in 1..4, c \in 1..4}),
           \o << [p |-> Big, g |-> <<2>>, ys |-> <<>>], [p |-> <<>>, g |-> <<>>, ys |-> Big], [p |-> Big, g |-> Big, ys |-> Big],
                 [p |-> <<0>>, g |-> <<0>>, ys |-> <<0>>], [p |-> <<0, 0, 0>>, g |-> <<>>, ys |-> <<0, 1>>], [p |-> RepZero(300), g |-> <<255>>, ys |-> <<>>] >>
           \o [k \in 1..12 |-> [p |-> Fill(k, 256 * <<1, 2, 3, 4, 7, 8, 16, 32, 64, 100, 128, 200>>[k] + (k % 2)), g |-> <<2>>, ys |-> <<k>>]]
+          (* the three integers are independent byte strings: a public value longer (sign octet, or a peer's mistake) or shorter than the *)
+          (* modulus, at the standard modulus sizes and beside them                                                                       *)
+          \o Concat([k \in 1..9 |-> LET n == <<128, 192, 256, 384, 512, 768, 1024, 2048, 255>>[k] IN
+                << [p |-> Fill(k, n), g |-> <<2>>, ys |-> Fill(k + 1, n + 1)], [p |-> Fill(k, n), g |-> <<0, 5>>, ys |-> Fill(k + 2, n - 1)],
+                   [p |-> Fill(k, n), g |-> Fill(3, n), ys |-> Fill(k + 3, 2 * n)] >>])
 (* integers with sign octets, leading zeros and high bits: opaque bytes, kept as sent (len(ys) = len(p) + 1 included) *)
 DhSignVals == << [p |-> <<200, 1>>, g |-> <<2>>, ys |-> <<0, 200, 7>>], [p |-> <<0, 200, 1>>, g |-> <<0, 2>>, ys |-> <<0, 0, 129>>],
                  [p |-> Fill(1, 128), g |-> <<5>>, ys |-> <<0>> \o [j \in 1..128 |-> 255]], [p |-> <<127>>, g |-> <<0>>, ys |-> <<0, 128>>],
